@@ -37,6 +37,13 @@ func (self ValueRange) IsEqual(other Value) (bool, *VmInterrupt) {
 
 func (self ValueRange) Fields() (map[string]*Value, *VmInterrupt) {
 	return map[string]*Value{
+		"to_string": NewValueBuiltinFunction(func(executor Executor, cancelCtx *context.Context, span errors.Span, args ...Value) (*Value, *VmInterrupt) {
+			display, i := self.Display()
+			if i != nil {
+				return nil, i
+			}
+			return NewValueString(display), nil
+		}),
 		"start": self.Start,
 		"end":   self.End,
 		"rev": NewValueBuiltinFunction(func(executor Executor, cancelCtx *context.Context, span errors.Span, args ...Value) (*Value, *VmInterrupt) {
